@@ -16,7 +16,7 @@ PM = "grin_core::core::pmmr::pmmr::PMMR::"
 
 def run(c):
     # --- fork-local validation dominates application
-    CL = P + "process_block::{closure#0}"
+    CL = P + "process_block@txhashset::txhashset::extending"
     c.r1("rewind-before-utxo", CL, P + "rewind_and_apply_fork", sink=P + "validate_utxo", via=0)
     c.r1("utxo-before-apply", CL, P + "validate_utxo", sink=P + "apply_block_to_txhashset", via=0)
     F = P + "rewind_and_apply_fork"
@@ -45,9 +45,9 @@ def run(c):
          fail_on=True, err="DuplicateCommitment",
          bypass=[(r"^discr\(Batch::get_output_pos\(arg2, Output::commitment\(arg1\)\)\)$", 1), (r"^discr\(ReadablePMMR::get_data\(arg0\.output_pmmr, Batch::get_output_pos\(", 0)],
          desc="validate_output: a stored output with the same commitment is a DuplicateCommitment; only bypasses: no index entry / no data at the indexed position")
-    c.r1("inputs-commit-only", U + "validate_inputs::{closure#0}", VI, via=0)
-    c.r1("inputs-features", U + "validate_inputs::{closure#1}", VI, via=0)
-    c.r2("inputs-features-match", U + "validate_inputs::{closure#1}::{closure#0}", cond=r"^PartialEq::eq\(arg1\.0, arg0\.0\)$", fail_on=False,
+    c.r1("inputs-commit-only", U + "validate_inputs@iterator::Iterator::map#1", VI, via=0)
+    c.r1("inputs-features", U + "validate_inputs@iterator::Iterator::map#2", VI, via=0)
+    c.r2("inputs-features-match", U + "validate_inputs@iterator::Iterator::map#2@result::Result::and_then", cond=r"^PartialEq::eq\(arg1\.0, arg0\.0\)$", fail_on=False,
          desc="validate_inputs (features+commit): the stored identifier must equal the full input")
     c.r2_ret("inputs-collect", U + "validate_inputs", must=["call:Iterator::collect", "call:Iterator::map", "arg1"])
     G = X + "TxHashSet::get_unspent"
